@@ -46,6 +46,8 @@ def twin_pairs(seed: int, n: int) -> list[tuple[dict, dict]]:
         b = copy.deepcopy(a)
         b["maximize"] = True
         b["name"] = a["name"] + "_max"
+        if i % 2 == 1:
+            b["retarget_problem"] = True      # the mirror's configuration is derived from one built for the other direction
         out.append((a, b))
     return out
 
